@@ -343,7 +343,7 @@ func init() {
 	core.Register(&core.Prop{
 		ID:    "C17",
 		Level: "exploration",
-		Rule:  "for every format item x separator x periodic outcome pattern over {pass, filtered-out (for six items: the numeric filter cannot be evaluated on the record's value), transform-fails} (quick: 14 words; thorough: every word of length <= 5 with a delivered record) x driver {Transform loop, FormatReader without Release}: prefix (sep record)^k suffix with k cycles; for every delivered record the tree reachable from its root is measured (node count, structure hash) and must be periodic with the pattern period after a 2-period warm-up (a lasso in the retained-state graph, which bounds the size for every k); plus, per item x separator x driver, one run of 1500 (thorough 6000) cycles in which the BYTES reachable from the Transform / reader object (reflection walk: objects behind pointers, slice capacities, strings, map entries) are measured at every 4th delivered record and the maximum over the second half must not exceed the maximum between 10% and 50% by more than 256 bytes; distinct by (item, separator, pattern, driver)",
+		Rule:  "for every format item x separator x periodic outcome pattern over {pass, filtered-out (for six items: the numeric filter cannot be evaluated on the record's value), transform-fails} (quick: 14 words; thorough: every word of length <= 5 with a delivered record) x driver {Transform loop, FormatReader without Release}: prefix (sep record)^k suffix with k cycles; for every delivered record the tree reachable from its root is measured (node count, structure hash) and must be periodic with the pattern period after a 2-period warm-up (a lasso in the retained-state graph, which bounds the size for every k); plus, per item x separator x driver, one run of 1500 (thorough 6000) cycles in which the BYTES reachable from the Transform / reader object (reflection walk: objects behind pointers, slice capacities, strings, map entries) are measured at every 4th delivered record and the maximum over the second half must not exceed the maximum between 10% and 50% by more than 256 bytes; distinct by (item, separator, pattern, driver); 24 format items incl. JSON records keyed inside an object, positional filter, records of more than 4 096 nodes",
 		Assumptions: []string{
 			"readers are deterministic functions of their retained state and the remaining input, so a repeated retained-tree signature at the same phase of a periodic input repeats forever",
 			"non-target declarations that themselves repeat without bound (e.g. repeated global envelopes) are outside the property ('a fixed set of ancestors')",
